@@ -289,6 +289,11 @@ ARG_KINDS = {
     # different strings that start at the same address (prefixes of one buffer)
     "prefix_strs": ("[&crate::TEXT[..1], &crate::TEXT[..2], &crate::TEXT[..4], &crate::TEXT[..3]]", "&str", ["a", "ab", "abcd", "abc"], "x.to_string()"),
     "prefix_cows": ("vec![std::borrow::Cow::Borrowed(&crate::TEXT[..2]), std::borrow::Cow::Borrowed(&crate::TEXT[..1])]", "&str", ["ab", "a"], "x.to_string()"),
+    # iterators over the slots of one static slice in another order than the slots' addresses
+    "rev_strs": ("crate::STRS.iter().rev()", "&str", ["o", "q", "p"], "x.to_string()"),
+    "rot_strs": ("crate::STRS[1..].iter().chain(crate::STRS[..1].iter())", "&str", ["q", "o", "p"], "x.to_string()"),
+    "sorted_ref_strs": ("{ let mut v: Vec<&&str> = crate::WORDS.iter().collect(); v.sort_by_key(|s| s.len()); v }", "&str", ["a", "bb", "ccc"], "x.to_string()"),
+    "skip_strs": ("crate::STRS.iter().skip(1)", "&str", ["q", "o"], "x.to_string()"),
     "one": ("[7]", "u8", ["7"], "x.to_string()"),
     "empty": ("[]", "u8", [], "x.to_string()"),
 }
@@ -313,6 +318,7 @@ static ALLOC: divan::AllocProfiler = divan::AllocProfiler::system();
 
 pub const ARGS_U64: &[u64] = &[10, 9, 100];
 pub static STRS: &[&str] = &["p", "q", "o"];
+pub static WORDS: &[&str] = &["ccc", "a", "bb"];
 pub static TEXT: &str = "abcdefgh";
 pub const CONSTS1: [usize; 1] = [5];
 pub const CONSTS3: [usize; 3] = [3, 1, 2];
@@ -510,6 +516,10 @@ def family_forms(m, tier):
         dict(raw_name="a_static_strs", args="static_strs"),
         dict(raw_name="a_empty", args="empty"),
         dict(raw_name="a_weird_strs", args="weird_strs"),
+        dict(raw_name="a_rev_strs", args="rev_strs"),
+        dict(raw_name="a_rot_strs", args="rot_strs", form="bencher"),
+        dict(raw_name="a_sorted_ref_strs", args="sorted_ref_strs"),
+        dict(raw_name="a_skip_strs", args="skip_strs"),
         dict(raw_name="a_prefix_strs", args="prefix_strs"),
         dict(raw_name="a_prefix_cows", args="prefix_cows", form="bencher"),
         dict(raw_name="a_dbg_tuple", args="dbg_tuple", form="bencher"),
